@@ -27,6 +27,7 @@ Spline interpolation and scipy.optimize.minimize are oracles: validator checks o
 import CBV.Lemmas.C16
 import CBV.Lemmas.C08
 import CBV.Lemmas.C16Real
+import CBV.Lemmas.C08Tie
 import Mathlib.Tactic.NormNum
 
 namespace CBV.C16
@@ -566,6 +567,65 @@ theorem T_C16_circle_closest_real {C e1 e2 : Vec ℝ} (hF : Frame e1 e2) {r ρ :
   rw [circle_query_sq hF, circle_query_sq hF, sub_self, Real.cos_zero]
   have := mul_nonneg (mul_nonneg hr hρ) (sub_nonneg.mpr (Real.cos_le_one (t - φ)))
   linarith
+
+/-! ### round 6: tie to the source text (tables regenerated by `cbv/tables/c16.py` with `ast` on every run) -/
+
+open CBV.C08 (chain opsAt operandsAt cmpOp) in
+/-- `CurveBase._check_param` is `if not (bounds[0] <= param <= bounds[1]): raise ValueError`, `_get_params` replaces a parameter only
+    when it `is None` (defaults `None`): the model's `getParamsF` accepts exactly when the regenerated chained comparison (operators
+    as they stand in the source now) holds for both parameters -/
+theorem T_C16_tie_params (lo hi : Rat) (pf pt : Option Rat) :
+    operandsAt CBV.Gen.c16CheckParamCompares 0 = ("self.bounds[0]", ["param", "self.bounds[1]"]) ∧
+    CBV.Gen.c16CheckParamNegated = [true] ∧
+    CBV.Gen.c16GetParamsCompares = [("param_from", ["Is"], ["None"]), ("param_to", ["Is"], ["None"])] ∧
+    CBV.Gen.c16GetParamsDefaults = [("param_from", "None"), ("param_to", "None")] ∧
+    (do let x ← chain (opsAt CBV.Gen.c16CheckParamCompares 0) [lo, pf.getD lo, hi]
+        let y ← chain (opsAt CBV.Gen.c16CheckParamCompares 0) [lo, pt.getD hi, hi]
+        pure (x && y)) = some (getParamsF lo hi pf pt).isSome := by
+  refine ⟨by decide, by decide, by decide, by decide, ?_⟩
+  have h : opsAt CBV.Gen.c16CheckParamCompares 0 = ["LtE", "LtE"] := by decide
+  rw [h]
+  unfold getParamsF
+  by_cases h1 : lo ≤ pf.getD lo <;> by_cases h2 : pf.getD lo ≤ hi <;> by_cases h3 : lo ≤ pt.getD hi <;>
+    by_cases h4 : pt.getD hi ≤ hi <;> simp [chain, cmpOp, h1, h2, h3, h4]
+
+open CBV.C08 (chain opsAt operandsAt cmpOp) in
+/-- sample counts and calls: `AnalyticCurve.get_length` discretises with `count=100` (the model's `getLengthA`), `FunctionCurveBase.discretize`
+    defaults to 15 samples and passes `num=count` to `np.linspace`; the break points of `InterpolatedCurveBase.get_length` are the knots with
+    `lower < t < upper` (the model's `lengthParams` filter, for every knot and every pair of parameters) -/
+theorem T_C16_tie_samples (d : α → α → Rat) (f : Rat → α) (lo hi : Rat) (pf pt : Option Rat) (ts : List Rat) (a b : Rat) :
+    CBV.Gen.c16AnalyticLengthCall = [["param_from", "param_to", "count=100"]] ∧
+    getLengthA d f lo hi pf pt = (discretizeFB f lo hi pf pt 100).map (polyLenD d) ∧
+    CBV.Gen.c16LinspaceCall = [["param_from", "param_to", "num=count"]] ∧
+    CBV.Gen.c16DiscretizeDefaults =
+      [("CurveBase", [("param_from", "None"), ("param_to", "None"), ("count", "10")]),
+       ("FunctionCurveBase", [("param_from", "None"), ("param_to", "None"), ("count", "15")]),
+       ("DiscreteCurve", [("param_from", "None"), ("param_to", "None"), ("_count", "0")])] ∧
+    operandsAt CBV.Gen.c16InterpLengthCompares 0 = ("lower", ["t", "upper"]) ∧
+    lengthParams ts a b = min a b ::
+      (ts.filter (fun t => chain (opsAt CBV.Gen.c16InterpLengthCompares 0) [min a b, t, max a b] == some true)) ++ [max a b] := by
+  refine ⟨by decide, rfl, by decide, by decide, by decide, ?_⟩
+  have h : opsAt CBV.Gen.c16InterpLengthCompares 0 = ["Lt", "Lt"] := by decide
+  rw [h]
+  unfold lengthParams
+  simp [chain, cmpOp]
+
+open CBV.C08 (chain opsAt operandsAt cmpOp) in
+/-- `DiscreteCurve`: the flip test `param_from > param_to`, the slice `[start : end + 1]`, a single point has length 0
+    (`len(points) < 2 → 0.0`); `LinearInterpolatedCurve.get_closest_param`: `np.where(lengths > 0, lengths, 1)`, `np.clip(ratios, 0, 1)`;
+    `OnCurveEdge.point_array`: the slice `[1:-1]` -/
+theorem T_C16_tie_discrete (x : Rat) :
+    CBV.Gen.c16DiscreteCompares = [("param_from", ["Gt"], ["param_to"])] ∧
+    CBV.Gen.c16DiscreteNumbers = [(0, 1), (1, 1), (0, 1)] ∧
+    CBV.Gen.c16DiscreteLengthCompares = [("len(points)", ["Lt"], ["2"])] ∧
+    CBV.Gen.c16DiscreteLengthNumbers = [(2, 1), (0, 1)] ∧
+    CBV.Gen.c16ClosestLinearCompares = [("lengths", ["Gt"], ["0"])] ∧
+    CBV.Gen.c16ClosestLinearClip = [["ratios", "0", "1"]] ∧
+    CBV.Gen.c16PointArrayNumbers = [(1, 1), (-1, 1)] ∧
+    clip01 x = (if chain ["Lt"] [x, 0] = some true then 0 else if chain ["Gt"] [x, 1] = some true then 1 else x) := by
+  refine ⟨by decide, by decide, by decide, by decide, by decide, by decide, by decide, ?_⟩
+  unfold clip01
+  simp [chain, cmpOp]
 
 /-! ### curve edges -/
 
